@@ -26,6 +26,7 @@ func runPanicRules(c *Ctx, rule string, entries []*ssa.Function, floor int) {
 	fns := w.ReachableRepo(entries, true)
 	for _, f := range fns {
 		c.Saw(f)
+		c.BoundsFns[f.String()] = true
 	}
 	n := reportSites(c, rule+".bounds", w.BoundsObligations(fns, commonJust))
 	n += reportSites(c, rule+".nil", w.UseBeforeErrCheck(fns))
